@@ -881,8 +881,22 @@ impl<R: Read> RdbReader<R> {
         Ok(())
     }
     
-    /// Read key-value with known type; returns the key that was loaded
+    /// Read key-value with known type; returns the key that was loaded.
+    /// Lists, sorted sets and streams are built element by element in the live dataset and get their deadline
+    /// last: when the record ends early (truncated or corrupted file) the key built so far is removed again,
+    /// so that a failed load never leaves a key with a value and a time to live it never had
     fn read_key_value_with_type(&mut self, storage: &Arc<StorageEngine>, db: usize, value_type: u8, deadline_ms: Option<u64>) -> Result<Vec<u8>> {
+        let mut building: Option<Vec<u8>> = None;
+        let result = self.read_record(storage, db, value_type, deadline_ms, &mut building);
+        if result.is_err() {
+            if let Some(key) = building {
+                let _ = storage.delete(db, &key);
+            }
+        }
+        result
+    }
+    
+    fn read_record(&mut self, storage: &Arc<StorageEngine>, db: usize, value_type: u8, deadline_ms: Option<u64>, building: &mut Option<Vec<u8>>) -> Result<Vec<u8>> {
         let loaded_key = match value_type {
             op if op == RdbOpcode::String as u8 => {
                 let key = self.read_string()?;
@@ -906,6 +920,7 @@ impl<R: Read> RdbReader<R> {
                     let member = self.read_string()?;
                     let score = self.read_f64()?;
                     storage.zadd(db, key.clone(), member, score)?;
+                    *building = Some(key.clone());
                 }
                 
                 if let Some(deadline_ms) = deadline_ms {
@@ -929,6 +944,7 @@ impl<R: Read> RdbReader<R> {
                             // An empty stream (every entry deleted) is written as the marker alone:
                             // re-create the key, otherwise it is lost by the restart.
                             storage.set_value(db, key.clone(), Value::empty_stream(), None)?;
+                            *building = Some(key.clone());
                         }
 
                         while entry_idx < remaining_count {
@@ -969,7 +985,9 @@ impl<R: Read> RdbReader<R> {
                             if let Some(stream_id) = crate::storage::stream::StreamId::from_string(
                                 std::str::from_utf8(&id_str).unwrap_or("")
                             ) {
-                                let _ = storage.xadd_with_id(db, key.clone(), stream_id, fields);
+                                if storage.xadd_with_id(db, key.clone(), stream_id, fields).is_ok() {
+                                    *building = Some(key.clone());
+                                }
                             }
                         }
                         
@@ -983,12 +1001,14 @@ impl<R: Read> RdbReader<R> {
                         // whatever its first element is)
                         if first_element != LIST_ESCAPE {
                             storage.rpush(db, key.clone(), vec![first_element])?;
+                            *building = Some(key.clone());
                         }
                         
                         // Read remaining list elements
                         for _ in 1..count {
                             let element = self.read_string()?;
                             storage.rpush(db, key.clone(), vec![element])?;
+                            *building = Some(key.clone());
                         }
                     }
                 } else {
@@ -1010,6 +1030,7 @@ impl<R: Read> RdbReader<R> {
                     members.push(self.read_string()?);
                 }
                 storage.sadd(db, key.clone(), members)?;
+                *building = Some(key.clone());
                 
                 if let Some(deadline_ms) = deadline_ms {
                     Self::expire_at(storage, db, &key, deadline_ms)?;
@@ -1028,6 +1049,7 @@ impl<R: Read> RdbReader<R> {
                     field_values.push((field, value));
                 }
                 storage.hset(db, key.clone(), field_values)?;
+                *building = Some(key.clone());
                 
                 if let Some(deadline_ms) = deadline_ms {
                     Self::expire_at(storage, db, &key, deadline_ms)?;
